@@ -16,16 +16,20 @@ class ParentSet(Contract):
     """Re-parenting: the entity joins the new parent, leaves the old one exactly when it differs,
     is re-saved under the new parent; assigning the current parent again changes nothing."""
     target = "geoh5py/shared/entity.py::Entity.parent.fset"
-    props = ("C01", "C02", "C09")
+    props = ("C01", "C02", "C09", "C10")
     lenient = True
 
     def cases(self):
-        return ["new-parent", "same-parent", "first-parent", "new-parent-refuses"]
+        # the entity moved: an object (which can hold children itself) and a data (which cannot)
+        return [(c, kind) for c in ("new-parent", "same-parent", "first-parent", "new-parent-refuses") for kind in ("object", "data")]
 
     def setup(self, ctx):
+        from geoh5py.data import FloatData
         from geoh5py.objects import Points
 
-        me = Opaque("self", cls=Points)
+        case, kind = ctx.case
+        ctx.env["kind"] = kind
+        me = Opaque("self", cls=Points if kind == "object" else FloatData)
         ws = Opaque("self.workspace")
         se = Opaque("save_entity")
         se.maybe_method = lambda I, a, kw: I.event("save_entity", entity=a[0])
@@ -42,7 +46,7 @@ class ParentSet(Contract):
             return p
 
         old, new = mk_parent("old-parent"), mk_parent("new-parent")
-        if ctx.case == "new-parent-refuses":
+        if case == "new-parent-refuses":
             def refuse(I, a, kw):
                 I.event("add_children", parent="new-parent", children=a[0])
                 raise RaiseSig(TypeError, "this parent does not take such children")
@@ -50,8 +54,8 @@ class ParentSet(Contract):
             new.attrs["add_children"].maybe_method = refuse
         ctx.path.assume(~old.none_var())
         ctx.path.assume(~new.none_var())
-        me.attrs["_parent"] = None if ctx.case == "first-parent" else old
-        target = old if ctx.case == "same-parent" else new
+        me.attrs["_parent"] = None if case == "first-parent" else old
+        target = old if case == "same-parent" else new
         ctx.env.update(me=me, old=old, new=new, target=target)
         return [me, target], {}
 
@@ -62,11 +66,12 @@ class ParentSet(Contract):
         rems = [p for k, p in ev if k == "remove_children"]
         saves = [p for k, p in ev if k == "save_entity"]
         tgt = e["target"]
-        if ctx.case == "new-parent-refuses":
+        case = ctx.case[0]
+        if case == "new-parent-refuses":
             ctx.oblige("a-refusal-by-the-new-parent-is-not-swallowed", False, note="the new parent refused the child but the assignment returned normally")
             return
         ctx.oblige("the-entity-joins-the-requested-parent", len(adds) == 1 and adds[0]["parent"] == tgt.tag and e["me"].attrs.get("_parent") is tgt)
-        if ctx.case == "new-parent":
+        if case == "new-parent":
             ctx.oblige("the-entity-leaves-its-old-parent", len(rems) == 1 and rems[0]["parent"] == "old-parent")
             ctx.oblige("the-move-is-written-to-the-file", len(saves) == 1 and saves[0]["entity"] is e["me"])
         else:
@@ -78,7 +83,7 @@ def _parentset_post_raises(self, ctx, sig):
     ev = ctx.path.events
     rems = [p for k, p in ev if k == "remove_children"]
     saves = [p for k, p in ev if k == "save_entity"]
-    ctx.oblige("only-a-refusing-parent-makes-the-move-fail", ctx.case == "new-parent-refuses", kind="post-exc")
+    ctx.oblige("only-a-refusing-parent-makes-the-move-fail", ctx.case[0] == "new-parent-refuses", kind="post-exc")
     ctx.oblige("a-refused-move-leaves-the-entity-under-its-old-parent", not rems and not saves and e["me"].attrs.get("_parent") is e["old"], kind="post-exc",
                note="the new parent refused the child after the entity had already been detached from its old parent (in memory and on file): it is left without any parent entry")
 
